@@ -389,6 +389,23 @@ def report(ck, sh, mm, gname):
                 for txt, c_ in ((f_[3], o['et'][a][t]), (f_[5], o['ep'][a][t])):
                     ok.append(_within(rf(txt), core.ufn('angle', c_.re, c_.im) / np.pi * 180))
         g.append(('far-field V/m table: phases within 5e-6 / 1e-6', z3.And(*ok)))
+        # the same table at the precision its format HAS (4 significant digits, 2 decimals): what is printed is the computed value
+        # rounded, nothing else (the two goals above are violated by the format itself: known findings)
+        okm, okp = [], []
+        i = 0
+        for a in range(2):
+            for t in range(2):
+                f_ = rows[i]
+                i += 1
+                for txt, c_ in ((f_[2], o['et'][a][t]), (f_[4], o['ep'][a][t])):
+                    mag = SR.lift(rf(txt))
+                    y = SR.lift(abs(c_))                 # the very square-root term the writer formatted (memoised per |E|^2)
+                    okm.append(z3.And((mag - y <= y * Fraction(55, 10 ** 5)).t, (mag - y >= y * Fraction(-55, 10 ** 5)).t))
+                for txt, c_ in ((f_[3], o['et'][a][t]), (f_[5], o['ep'][a][t])):
+                    dd = SR.lift(rf(txt)) - core.ufn('angle', c_.re, c_.im) / np.pi * 180
+                    okp.append(z3.And((dd <= Fraction(501, 10 ** 5)).t, (dd >= Fraction(-501, 10 ** 5)).t))
+        g.append(('far-field V/m table at the precision of its format: phases are the rounded computed values', z3.And(*okp)))
+        g.append(('far-field V/m table at the precision of its format: magnitudes are the rounded computed values', z3.And(*okm)))
         # ---- near field E
         ok = []
         comp = [ln.split() for ln in text['nfe'].split('\n') if len(ln.split()) == 5 and ln.split()[0] in 'XYZ']
@@ -448,7 +465,15 @@ def replay_report(mm, gname, c, goal):
             i = 0
             for a in range(2):
                 for t in range(2):
-                    if 'phases' in goal:
+                    if 'precision of its format' in goal:
+                        for col, val in ((3, np.angle(et[a][t]) / np.pi * 180), (5, np.angle(ep[a][t]) / np.pi * 180)):
+                            if abs(float(rows[i][col]) - val) > 0.00501:
+                                return ('C19:far-field-absolute:phase-wrong', 'V/m table prints the phase %r degrees of a field of magnitude %.3g V/m as %s'
+                                        % (val, abs((et if col == 3 else ep)[a][t]), rows[i][col]), dict(kind='report', goal=goal))
+                        for col, val in ((2, abs(et[a][t])), (4, abs(ep[a][t]))):
+                            if abs(float(rows[i][col]) - val) > 5.5e-4 * val:
+                                return ('C19:far-field-absolute:magnitude-wrong', 'V/m table prints |E| = %r as %s' % (val, rows[i][col]), dict(kind='report', goal=goal))
+                    elif 'phases' in goal:
                         for col, val in ((3, np.angle(et[a][t]) / np.pi * 180), (5, np.angle(ep[a][t]) / np.pi * 180)):
                             if not ok(float(rows[i][col]), val):
                                 return ('C19:far-field-absolute:phase-%8.2f', 'V/m table prints the phase %r degrees as %s (2 decimals)'
